@@ -118,13 +118,15 @@ def claimed_promise(ctx, db, rid):
 # built on is broken (a queue's pop IS a future; a mutex request IS an awaiter pushed by the lock-free push; a released ownership travels in
 # a suspend point), so the rules that decide those invariants are claimed under the feature's property too - once, under an id that says so.
 # Rules the property already claims under a name of its own are skipped (same rule text = same rule).
+# (coro_queue = the per-thread ready queue and the coroutine-mode discipline of C05: every feature that resumes waiting coroutines does it
+#  through coro_queue::resume / a suspend point flushed into it, or installs a queue itself)
 BUILT_ON = {
     'C01': ('awaiter',), 'C02': ('future',), 'C03': ('future', 'awaiter'),
-    'C04': ('future', 'awaiter', 'suspend_point'), 'C05': ('suspend_point',),
-    'C07': ('awaiter', 'suspend_point'), 'C08': ('awaiter', 'suspend_point'),
-    'C09': ('future', 'awaiter', 'suspend_point'), 'C10': ('future', 'awaiter', 'suspend_point'),
-    'C11': ('future', 'awaiter', 'suspend_point'), 'C12': ('future', 'awaiter', 'suspend_point'),
-    'C13': ('future', 'awaiter', 'suspend_point'), 'C14': ('future', 'awaiter', 'suspend_point'),
+    'C04': ('future', 'awaiter', 'suspend_point', 'coro_queue'), 'C05': ('suspend_point',), 'C06': ('coro_queue',),
+    'C07': ('awaiter', 'suspend_point', 'coro_queue'), 'C08': ('awaiter', 'suspend_point', 'coro_queue'),
+    'C09': ('future', 'awaiter', 'suspend_point', 'coro_queue'), 'C10': ('future', 'awaiter', 'suspend_point', 'coro_queue', 'queue'),
+    'C11': ('future', 'awaiter', 'suspend_point', 'coro_queue', 'async'), 'C12': ('future', 'awaiter', 'suspend_point', 'coro_queue', 'generator', 'async'),
+    'C13': ('future', 'awaiter', 'suspend_point', 'coro_queue'), 'C14': ('future', 'awaiter', 'suspend_point', 'generator', 'queue', 'coro_queue'),
     'C15': ('awaiter', 'suspend_point'), 'C16': ('awaiter', 'suspend_point'),
     'C17': ('future', 'awaiter', 'suspend_point'), 'C18': ('future', 'awaiter', 'suspend_point'),
 }
@@ -144,11 +146,12 @@ def built_on(ctx, db, pid):
                   ('future', 'born-resolved-is-ready', lambda r: C01.resolved_constructors(ctx, db, r)),
                   ('future', 'has-value-forms-agree', lambda r: C01.has_value_agrees(ctx, db, r)),
                   ('future', 'result-immutable', lambda r: C01.result_immutable(ctx, db, r)),
+                  ('future', 'payload-matches-tag', lambda r: C01.state_tag_agrees(ctx, db, r)),
                   ('future', 'ready-by-one-exchange', lambda r: C02.resolve_one_rmw(ctx, db, r)),
-                  ('future', 'walker-leaves-resumed-nodes-alone', lambda r: C02.walk(ctx, db, r)),
                   ('future', 'result-visible-to-the-released', lambda r: atomic.check_roles(ctx, db, r, only_functions=C02.RESULT_VISIBILITY_FUNCTIONS, floor=8))]
     if 'awaiter' in comps:
-        items += [('awaiter', 'late-registration-refused', lambda r: C02.subscribe_protocol(ctx, db, r)),
+        items += [('awaiter', 'walker-leaves-resumed-nodes-alone', lambda r: C02.walk(ctx, db, r)),
+                  ('awaiter', 'late-registration-refused', lambda r: C02.subscribe_protocol(ctx, db, r)),
                   ('awaiter', 'push-links-current-top', lambda r: C02.link_current(ctx, db, r)),
                   ('awaiter', 'await-suspend-forms-agree', lambda r: C02.await_suspend_siblings(ctx, db, r)),
                   ('awaiter', 'blocking-wait-iff-registered', lambda r: C02.sync_waits(ctx, db, r)),
@@ -159,7 +162,50 @@ def built_on(ctx, db, pid):
                   ('suspend-point', 'moved-from-is-empty', lambda r: C06.source_reset(ctx, db, r)),
                   ('suspend-point', 'handles-consumed-once', lambda r: C06.consumers_clear(ctx, db, r)),
                   ('suspend-point', 'awaiter-queued-once', lambda r: C06.self_inclusion(ctx, db, r)),
-                  ('suspend-point', 'collected-is-removed', lambda r: C06.collected_is_removed(ctx, db, r))]
+                  ('suspend-point', 'collected-is-removed', lambda r: C06.collected_is_removed(ctx, db, r)),
+                  ('suspend-point', 'growth', lambda r: C06.growth(ctx, db, r))]
+    if 'coro_queue' in comps:
+        from . import C05
+        items += [('coro-queue', 'mode-split', lambda r: C05.mode_split(ctx, db, r)),
+                  ('coro-queue', 'install-only-inactive', lambda r: C05.install_only_inactive(ctx, db, r)),
+                  ('coro-queue', 'direct-resume', lambda r: C05.direct_resume(ctx, db, r)),
+                  ('coro-queue', 'drain-before-restore', lambda r: C05.drain_before_restore(ctx, db, r)),
+                  ('coro-queue', 'who-writes-instance', lambda r: C05.who_writes_instance(ctx, db, r)),
+                  ('coro-queue', 'fifo-ops', lambda r: C05.fifo_ops(ctx, db, r)),
+                  ('coro-queue', 'yield-round-robin', lambda r: C05.pause_rule(ctx, db, r))]
+    if 'async' in comps:
+        from . import C04
+        items += [('async', 'handle-linear', lambda r: C04.handle_linear(ctx, db, r)),
+                  ('async', 'start-once', lambda r: C04.entries(ctx, db, r)),
+                  ('async', 'claimed-promise', lambda r: claimed_promise(ctx, db, r)),
+                  ('async', 'refused-start-empty', lambda r: C04.refused_start_empty(ctx, db, r)),
+                  ('async', 'co-await-wiring', lambda r: C04.co_await_wiring(ctx, db, r)),
+                  ('async', 'final-awaiter', lambda r: final_awaiter(ctx, db, r)),
+                  ('async', 'dtor-destroys-unstarted', lambda r: C04.dtor(ctx, db, r)),
+                  ('async', 'bound-party-writers', lambda r: C04.bound_writers(ctx, db, r)),
+                  ('async', 'join-delivers', lambda r: C04.join_delivers(ctx, db, r)),
+                  ('async', 'start-is-eager', lambda r: C04.start_is_eager(ctx, db, r)),
+                  ('async', 'detached-delivers-to-nobody', lambda r: C04.bound_party_optional(ctx, db, r))]
+    if 'generator' in comps:
+        from . import C13
+        items += [('generator', 'ask-forms-agree', lambda r: C13.ask_siblings(ctx, db, r)),
+                  ('generator', 'coroutine-hooks', lambda r: C13.hooks(ctx, db, r)),
+                  ('generator', 'asker-woken-once', lambda r: C13.wake_asker_once(ctx, db, r)),
+                  ('generator', 'future-completion', lambda r: C13.unblock_future(ctx, db, r)),
+                  ('generator', 'blocking-step', lambda r: C13.sync_block(ctx, db, r)),
+                  ('generator', 'one-step-per-advance', lambda r: C13.one_step(ctx, db, r)),
+                  ('generator', 'step-recorded', lambda r: C13.state_recorded(ctx, db, r)),
+                  ('generator', 'done-means-returned', lambda r: C13.done_means_returned(ctx, db, r))]
+    if 'queue' in comps:
+        from . import C09
+        from .. import locks
+        from .tables import GUARDED
+        items += [('queue', 'item-to-one-sink', lambda r: C09.push_linear(ctx, db, r, 'cocls::queue::push')),
+                  ('queue', 'pop-parks-or-delivers', lambda r: C09.pop_linear(ctx, db, r, 'cocls::queue::pop')),
+                  ('queue', 'resolve-outside-lock', lambda r: C09.resolve_outside_lock(ctx, db, r, ['cocls::queue::push', 'cocls::queue::unblock_pop'])),
+                  ('queue', 'never-empty-access', lambda r: C09.nonempty(ctx, db, r, ['cocls::queue'])),
+                  ('queue', 'locks', lambda r: locks.check_guarded(ctx, db, r, {k: v for k, v in GUARDED.items() if k.startswith('cocls::queue::')}, ['cocls::queue'], per_instance=True, floor=5)),
+                  ('queue', 'waiters-held-by-value', lambda r: C09.held_by_value(ctx, db, r))]
     for comp, name, fn in items:
         rid = '%s.built-on-%s.%s' % (pid, comp, name)
         ctx.dedupe = True
